@@ -531,6 +531,106 @@ static void report_watch (void)
   printf (" itc=%d\n", (MHD_ITC_IS_VALID_ (d->itc) && FD_ISSET (MHD_itc_r_fd_ (d->itc), &rs)) ? 1 : 0);
 }
 
+
+/* ---------------------------------------------------------------- gated poll() (mode poll-thr)
+ * The daemon's polling thread blocks in this shim until the script releases one cycle.  While it is parked the
+ * main thread may look at the daemon (white box) and act as "another thread" (add / resume).  The timeout the thread
+ * asked for is the daemon's own answer to "may I sleep?"; a real poll() with that timeout returns only when it
+ * expires or a descriptor of the array is ready, which is what `gate_wanted` decides. */
+#include <poll.h>
+static pthread_t main_thr;
+static int gate_on, gate_free;
+static pthread_mutex_t gate_mx = PTHREAD_MUTEX_INITIALIZER;
+static pthread_cond_t gate_cv = PTHREAD_COND_INITIALIZER;
+static int gate_parked, gate_go;
+static struct pollfd *gate_fds; static nfds_t gate_n; static int gate_timeout;
+static int (*real_poll) (struct pollfd *, nfds_t, int);
+
+static void put_pollset (const char *tag, const struct pollfd *f, nfds_t n, int use_revents, short mask)
+{
+  int c, first = 1; nfds_t i;
+  printf ("%s=[", tag);
+  for (c = 0; c < MAXC; c++)
+  {
+    if (!conns[c].used || !conns[c].mc) continue;
+    for (i = 0; i < n; i++)
+      if (f[i].fd == conns[c].mc->socket_fd && 0 != ((use_revents ? f[i].revents : f[i].events) & mask))
+      { if (!first) putchar (','); first = 0; printf ("%d", c); break; }
+  }
+  putchar (']');
+}
+
+int poll (struct pollfd *fds, nfds_t nfds, int timeout)
+{
+  int r;
+  if (NULL == real_poll) real_poll = (int (*)(struct pollfd *, nfds_t, int)) dlsym (RTLD_NEXT, "poll");
+  if (!gate_on || gate_free || pthread_equal (pthread_self (), main_thr)) return real_poll (fds, nfds, timeout);
+  pthread_mutex_lock (&gate_mx);
+  gate_fds = fds; gate_n = nfds; gate_timeout = timeout; gate_parked = 1;
+  pthread_cond_broadcast (&gate_cv);
+  while (!gate_go && !gate_free) pthread_cond_wait (&gate_cv, &gate_mx);
+  gate_go = 0; gate_parked = 0;
+  pthread_mutex_unlock (&gate_mx);
+  if (gate_free) return real_poll (fds, nfds, timeout);
+  r = real_poll (fds, nfds, 0);
+  pthread_mutex_lock (&out_mx);
+  printf ("passed "); put_pollset ("r", fds, nfds, 1, POLLIN); putchar (' '); put_pollset ("w", fds, nfds, 1, POLLOUT); putchar (' ');
+  put_pollset ("e", fds, nfds, 1, MHD_POLL_REVENTS_ERR_DISC); putchar ('\n');
+  pthread_mutex_unlock (&out_mx);
+  return r;
+}
+
+static int gate_wait_parked (void)
+{
+  struct timespec ts; int ok = 1;
+  clock_gettime (CLOCK_REALTIME, &ts); ts.tv_sec += 10;
+  pthread_mutex_lock (&gate_mx);
+  while (!gate_parked) if (0 != pthread_cond_timedwait (&gate_cv, &gate_mx, &ts)) { ok = 0; break; }
+  pthread_mutex_unlock (&gate_mx);
+  if (!ok) out ("park-timeout");
+  return ok;
+}
+
+/* would the poll() the thread is parked in return now? */
+static int gate_wanted (void)
+{
+  struct pollfd cp[2 + MAXC]; nfds_t n = gate_n < 2 + MAXC ? gate_n : 2 + MAXC;
+  memcpy (cp, gate_fds, n * sizeof(cp[0]));
+  if (0 == gate_timeout) return 1;
+  if (real_poll (cp, n, 0) > 0) return 1;
+  if (gate_timeout > 0) { vclock_ms += (uint64_t) gate_timeout; out ("slept %d", gate_timeout); return 1; }
+  return 0;
+}
+
+static void gate_release (void)
+{
+  pthread_mutex_lock (&gate_mx);
+  gate_go = 1; gate_parked = 0;
+  pthread_cond_broadcast (&gate_cv);
+  pthread_mutex_unlock (&gate_mx);
+}
+
+static void gate_open (void)
+{
+  pthread_mutex_lock (&gate_mx);
+  gate_free = 1;
+  pthread_cond_broadcast (&gate_cv);
+  pthread_mutex_unlock (&gate_mx);
+}
+
+static void gate_report (void)
+{
+  struct pollfd cp[2 + MAXC]; nfds_t n = gate_n < 2 + MAXC ? gate_n : 2 + MAXC; nfds_t i; int itc = 0;
+  memcpy (cp, gate_fds, n * sizeof(cp[0]));
+  printf ("fdset "); put_pollset ("r", cp, n, 0, POLLIN); putchar (' '); put_pollset ("w", cp, n, 0, POLLOUT); putchar (' ');
+  put_pollset ("e", cp, n, 0, (short) (POLLIN | POLLOUT | MHD_POLL_EVENTS_ERR_DISC)); putchar ('\n');
+  real_poll (cp, n, 0);
+  for (i = 0; i < n; i++) if (MHD_ITC_IS_VALID_ (d->itc) && cp[i].fd == MHD_itc_r_fd_ (d->itc) && 0 != (cp[i].revents & POLLIN)) itc = 1;
+  printf ("kready "); put_pollset ("r", cp, n, 1, POLLIN); putchar (' '); put_pollset ("w", cp, n, 1, POLLOUT); putchar (' ');
+  put_pollset ("e", cp, n, 1, MHD_POLL_REVENTS_ERR_DISC); printf (" itc=%d\n", itc);
+  if (gate_timeout < 0) out ("hint none"); else out ("hint %d", gate_timeout);
+}
+
 /* ---------------------------------------------------------------- rounds */
 static void drain_clients (void)
 {
@@ -558,6 +658,14 @@ static void report (void)
   drain_clients ();
   if (NULL == d) return;
   printf ("state "); put_snap (); putchar ('\n');
+  if (gate_on)
+  {
+    const union MHD_DaemonInfo *di2;
+    gate_report ();
+    di2 = MHD_get_daemon_info (d, MHD_DAEMON_INFO_CURRENT_CONNECTIONS);
+    out ("conns %u", di2 ? di2->num_connections : 0u);
+    return;
+  }
   report_watch ();
   if (MHD_YES == MHD_get_timeout64 (d, &to)) out ("hint %" PRIu64, to); else out ("hint none");
   di = MHD_get_daemon_info (d, MHD_DAEMON_INFO_CURRENT_CONNECTIONS);
@@ -575,6 +683,17 @@ static void one_round (const struct lp_line *rl)
       if (0 == conns[c].resume_in) { conns[c].resume_in = -1; out ("resume c=%d", c); MHD_resume_connection (conns[c].mc); }
       else conns[c].resume_in--;
     }
+  if (gate_on)
+  { /* one cycle of the polling thread, from the poll() it is parked in to the next one */
+    printf ("round-begin "); put_snap (); putchar ('\n');
+    fflush (stdout);
+    in_round = 1;
+    gate_release ();
+    gate_wait_parked ();
+    in_round = 0;
+    printf ("round-end "); put_snap (); putchar ('\n');
+    return;
+  }
   if (threaded ()) { usleep (20000); return; }
   printf ("round-begin "); put_snap (); putchar ('\n');
   in_round = 1;
@@ -653,7 +772,11 @@ static void start_daemon (void)
   ops[n].option = MHD_OPTION_NOTIFY_CONNECTION; ops[n].value = (intptr_t) &notify_conn; ops[n++].ptr_value = NULL;
   ops[n].option = MHD_OPTION_URI_LOG_CALLBACK; ops[n].value = (intptr_t) &uri_log; ops[n++].ptr_value = NULL;
   ops[n].option = MHD_OPTION_END; ops[n].value = 0; ops[n++].ptr_value = NULL;
+  main_thr = pthread_self ();
+  gate_free = 0; gate_go = 0; gate_parked = 0;
+  gate_on = !strcmp (cfg.mode, "poll-thr");
   d = MHD_start_daemon (flags, 0, NULL, NULL, &handler, NULL, MHD_OPTION_ARRAY, ops, MHD_OPTION_END);
+  if (d && gate_on) gate_wait_parked ();
   out (d ? "started" : "start-failed");
 }
 
@@ -662,7 +785,7 @@ static void elog (void *cls, const char *fmt, va_list ap) { (void) cls; (void) f
 static void reset_all (void)
 {
   int c, i, j;
-  if (d) { MHD_stop_daemon (d); d = NULL; }
+  if (d) { gate_open (); MHD_stop_daemon (d); d = NULL; gate_on = 0; }
   for (c = 0; c < MAXC; c++) { if (conns[c].used && conns[c].cfd >= 0) close (conns[c].cfd); }
   memset (conns, 0, sizeof(conns));
   for (i = 0; i < MAXRESP; i++) { for (j = 0; j < resps[i].nh; j++) { free (resps[i].h[j].n); free (resps[i].h[j].v); } }
@@ -794,6 +917,14 @@ int main (void)
     { shutdown (conns[a].cfd, SHUT_WR); out ("ok"); continue; }
     if (!strcmp (op, "cclose") && l.n >= 2 && lp_u64 (l.w[1], &a) && a < MAXC && conns[a].used)
     { drain_clients (); close (conns[a].cfd); conns[a].cfd = -1; conns[a].eof_seen = 1; out ("ok"); continue; }
+    if (gate_on && (!strcmp (op, "round") || !strcmp (op, "roundw")))
+    { /* the thread really sleeps in poll(): a cycle happens only when that poll() would return */
+      if (!gate_wanted ()) { out ("skipped"); report (); continue; }
+      one_round (NULL); report (); continue;
+    }
+    if (gate_on && !strcmp (op, "drain") && l.n >= 2 && lp_u64 (l.w[1], &a))
+    { for (i = 0; i < (int) a; i++) { if (!gate_wanted ()) break; one_round (NULL); report (); }
+      out (i < (int) a ? "quiescent after=%d" : "drain-exhausted after=%d", i); continue; }
     if ((!strcmp (op, "roundw") || !strcmp (op, "round-ready-w")) && !threaded ())
     { /* an application that calls the loop only when the API obliges it to */
       if (!loop_wanted ()) { out ("skipped"); report (); continue; }
@@ -830,7 +961,7 @@ int main (void)
         { conns[i].resume_in = -1; out ("resume c=%d", i); MHD_resume_connection (conns[i].mc); any = 1; }
       if (any && !threaded ()) { one_round (NULL); one_round (NULL); }
       else if (any) usleep (50000);
-      drain_clients (); MHD_stop_daemon (d); d = NULL; drain_clients (); out ("stopped");
+      drain_clients (); gate_open (); MHD_stop_daemon (d); d = NULL; gate_on = 0; drain_clients (); out ("stopped");
       for (i = 0; i < MAXRESP; i++) if (freecb_count[i]) out ("free-cb-total rid=%d n=%d", i, freecb_count[i]);
       continue; }
     out ("bad-op");
